@@ -7,11 +7,6 @@ From OCV Require Import Base.Prelude Queue.PMap Queue.PWS.
 From OCV Require Queue.OWSOracle.
 Open Scope Z_scope.
 
-Definition remove1 := OWSOracle.remove1.
-Definition mem := OWSOracle.mem.
-Definition get_starve := OWSOracle.get_starve.
-Definition set_starve := OWSOracle.set_starve.
-
 Definition all_local_items (s : sys) : list item := List.concat (s_locals s).
 Definition all_items (s : sys) : list item := s_shq s ++ all_local_items s.
 
@@ -55,7 +50,7 @@ Definition ostep (s : sys) (st : ostate) (o : op) (io : obs) : sys * ostate :=
   let pend1 := pend_push o (o_pend st) in
   let '(pend2, c03_pop) :=
     match popped with
-    | Some x => match remove1 x pend1 with
+    | Some x => match OWSOracle.remove1 x pend1 with
                 | Some r => (r, true)
                 | None => (pend1, false)
                 end
@@ -76,11 +71,11 @@ Definition ostep (s : sys) (st : ostate) (o : op) (io : obs) : sys * ostate :=
     match o with
     | LPop h _ =>
         if o_sync st then
-          if is_nil (s_shq s) then (set_starve (o_starve st) h 0, true)
-          else if match io with OItem (Some x) => mem x (s_shq s) | _ => false end
-               then (set_starve (o_starve st) h 0, true)
-               else let v := get_starve (o_starve st) h + 1 in
-                    (set_starve (o_starve st) h v, v <? 61)
+          if is_nil (s_shq s) then (OWSOracle.set_starve (o_starve st) h 0, true)
+          else if match io with OItem (Some x) => OWSOracle.mem x (s_shq s) | _ => false end
+               then (OWSOracle.set_starve (o_starve st) h 0, true)
+               else let v := OWSOracle.get_starve (o_starve st) h + 1 in
+                    (OWSOracle.set_starve (o_starve st) h v, v <? 61)
         else (o_starve st, true)
     | _ => (o_starve st, true)
     end in
